@@ -96,6 +96,20 @@ def mutations(d: bytes, corpus: list[bytes], ids: list[int], thorough: bool, oth
             # (c) attacker embeds its own key and signs: a genuinely valid message of the attacker
             own = d[:23] + struct.pack(">H", len(other_pub)) + other_pub + d[25 + klen:-siglen]
             yield (f"resigned_by_attacker:{curve}", 0, sign_with(priv, own))
+        # (b') two steps: first an AUTHENTIC datagram under a key made of the victim's encryption half and the attacker's
+        # signing half (signed by the attacker, who owns that signing half), then the victim's real key with the
+        # attacker's signature - whatever the first one left behind must not help the second
+        if key_bin.startswith(b"LibNaCLPK:") and klen == 74:
+            a_pub = keypool.key(ATTACKER, "curve25519").pub().key_to_bin()
+            a_priv = keypool.private_bin(ATTACKER, "curve25519")
+            mixed = b"LibNaCLPK:" + key_bin[10:42] + a_pub[42:74]
+            prime = sign_with(a_priv, d[:25] + mixed + d[25 + klen:-siglen])
+            yield ("mixed_key_then_foreign_signature", 0, (prime, sign_with(a_priv, body)))
+            # the same for a victim the receiver has never heard of (nothing about its key is known or cached yet)
+            v2 = keypool.key(OTHER, "curve25519").pub().key_to_bin()
+            mixed2 = b"LibNaCLPK:" + v2[10:42] + a_pub[42:74]
+            prime2 = sign_with(a_priv, d[:25] + mixed2 + d[25 + klen:-siglen])
+            yield ("mixed_key_then_foreign_signature:unseen", 0, (prime2, sign_with(a_priv, d[:25] + v2 + d[25 + klen:-siglen])))
         # (d) keys the receiver has a special relation with - its own key, keys of peers it has verified - embedded with
         # the original signature kept, and with a signature made by the attacker's key
         for label, pub in known_keys:
@@ -318,6 +332,14 @@ def run_scenario_case(ctx: Ctx | None, scenario: str, shard: int, nshards: int, 
                         # history: the genuine datagram is handled first while the receiver's own sends fail
                         case["after_failed_send"] = 1
                         await b.deliver_with_failing_send(src, d)
+                    if isinstance(x, tuple):
+                        # a two-step mutant: the first datagram is delivered (it is a valid message of another identity),
+                        # the second one is judged
+                        b.node.raw_endpoint.deliver(("6.6.6.6", 6000), x[0])
+                        import asyncio
+                        for _ in range(3):
+                            await asyncio.sleep(0)
+                        x = x[1]
                     # src variations: original source, and a spoofed one
                     try:
                         nt = await b.judge(src if pos % 2 == 0 else ("6.6.6.6", 6000), x, case)
